@@ -8,6 +8,7 @@ package server
 
 import (
 	"context"
+	"time"
 )
 
 type c03Step struct {
@@ -114,4 +115,51 @@ func VF_C03_slow_reader() {
 	ra := <-a.Out
 	vfAssert(string(rb) == "*2\r\n$2\r\nb1\r\n$2\r\nb2\r\n", "second-connection-reply")
 	vfAssert(string(ra) == "*2\r\n$2\r\na1\r\n$2\r\na2\r\n", "slow-connection-received-another-connections-reply")
+}
+
+// VF_C03_pipeline_blocking_pop: commands pipelined behind a blocking pop (served at once, or after its
+// first poll tick, or timing out) are answered after it, never before: the i-th write is the reply to
+// the i-th command. Virtual time: the pop's ticker and timer fire when every thread is blocked.
+func VF_C03_pipeline_blocking_pop() {
+	vfOpt("timers", 40)
+	m := hNewManager(2)
+	ctx := context.Background()
+	pop := "blpop"
+	if vfChoice("pop", 2) == 1 {
+		pop = "brpop"
+	}
+	var stream []byte
+	var want []string
+	if vfChoice("list-has-data", 2) == 1 {
+		stream = append(stream, vfEncode(bs("rpush"), bs("q"), bs("job"))...)
+		want = append(want, ":1\r\n")
+		stream = append(stream, vfEncode(bs(pop), bs("q"), bs("1"))...)
+		want = append(want, "*2\r\n$1\r\nq\r\n$3\r\njob\r\n")
+	} else {
+		stream = append(stream, vfEncode(bs(pop), bs("q"), bs("1"))...)
+		want = append(want, "") // a nil reply of some shape after the timeout
+	}
+	stream = append(stream, vfEncode(bs("ping"))...)
+	want = append(want, "+PONG\r\n")
+	stream = append(stream, vfEncode(bs("get"), bs("nokey"))...)
+	want = append(want, "$-1\r\n")
+	conn := vfNewConn("P", false)
+	vfSpawn(func() {
+		conn.In <- stream
+		if !vfIsSymbolic() {
+			time.Sleep(1500 * time.Millisecond) // let a pop that waits for its timeout finish before EOF
+		}
+		close(conn.In)
+	})
+	m.Handle(ctx, conn)
+	vfSettle()
+	// one obligation (the two ways it fails - a write missing when the handler returns, a write out of
+	// place - depend on the schedule only)
+	ok := len(conn.Log) == len(want)
+	for i := range want {
+		if i < len(conn.Log) && want[i] != "" && string(conn.Log[i]) != want[i] {
+			ok = false
+		}
+	}
+	vfAssert(ok, "blocking-pop-pipeline-replies-in-request-order")
 }
